@@ -1061,17 +1061,17 @@ theorem dup_step (c : Cfg) (hfix : c.holdFix = true) (env : Env) (past fut : Lis
   | cleanTick t => exact dcore_cleanTick c env past s n t inv di
   | restart => exact dcore_storeSame c past s n _ .restart inv di rfl rfl (Or.inr rfl)
 
-theorem dup_run (c : Cfg) (hfix : c.holdFix = true) (hexp : c.expiryNow = true) (env : Env) :
+theorem dup_run (c : Cfg) (hfix : c.holdFix = true) (env : Env) :
     ∀ (fut past : List Event) (s : SpecSt) (n : Node) (i : Nat), Domain13t c (past ++ fut) → RInv c past s n →
     DInv c past s n → firstFail dupFail c s i ((trace env n fut).map obsOf) = none
   | [], _, _, _, _, _, _, _ => rfl
   | ev :: fut, past, s, n, i, hdom, inv, di => by
     simp only [trace, List.map_cons, firstFail]
-    rcases rinv_step c hfix hexp env past fut ev hdom.d13.dom s n inv with ⟨_, h2⟩
+    have h2 := rinv_step c env past fut ev hdom.d13.dom s n inv
     rcases dup_step c hfix env past fut ev hdom s n inv di with ⟨h3, h4⟩
     rw [h3]
     simp only
-    exact dup_run c hfix hexp env fut (past ++ [ev]) _ _ (i + 1) (by simpa using hdom) h2 h4
+    exact dup_run c hfix env fut (past ++ [ev]) _ _ (i + 1) (by simpa using hdom) h2 h4
 
 theorem dinv_init (c : Cfg) (now : Nat) : DInv c [] (SpecSt.init now) (init c now) := by
   refine ⟨?_, ?_, ?_, ?_⟩
